@@ -71,6 +71,14 @@ class BaseLinker(SolverMixin, ModelInterface):
         if submodels is None or len(submodels) == 0:
             submodels = {}
 
+        # The linker shares a namespace with its submodels e.g. in `sizes` and
+        # `to_dataframes()`
+        if name in submodels:
+            raise InitialisationError(
+                f"Linker name '{name}' is also the identifier of a submodel: "
+                f'set a different `name` (or identifier)'
+            )
+
         self.__dict__['submodels'] = submodels
         self.__dict__['name'] = name
 
